@@ -209,6 +209,28 @@ MUTANTS = [
  ('C08-9', 'C08', K + 'FileHandlers/Writer/WriteT4Geometry.py',
   "        union_ids = tuple(renumber[surf_id] for surf_id in union_ids)\n",
   ""),
+ # ---- C09
+ ('C09-1', 'C09', K + 'GeomComp/ConstructGeomCompT4.py',
+  "            volID = val.idorigin[0][0]",
+  "            volID = val.idorigin[-1][1]"),
+ ('C09-2', 'C09', K + 'FileHandlers/Parser/ParseMCNPCell.py',
+  "            density = normalize_float(material.split()[1])",
+  "            density = material.split()[1]"),
+ ('C09-3', 'C09', K + 'Utils.py',
+  "    norm = re.sub(r'^([-+]?[0-9]*\\.[0-9]*?)0+$', r'\\1', number)",
+  "    norm = re.sub(r'^([-+]?[0-9]*\\.[0-9]*[^0])0+$', r'\\1', number)"),
+ ('C09-4', 'C09', K + 'Volume/CellConversion.py',
+  "            new_cell.materialID = element_cell.materialID\n            new_cell.density = element_cell.density",
+  "            new_cell.materialID = element_cell.materialID"),
+ ('C09-5', 'C09', K + 'Utils.py',
+  "    norm = re.sub(r'[eEdD]', 'e', norm)",
+  "    norm = re.sub(r'[eE]', 'e', norm)"),
+ ('C09-6', 'C09', K + 'Volume/CellConversion.py',
+  "            if universe == cell.universe:\n                new_cell.fillid = None\n                new_cell.materialID = cell.materialID",
+  "            if universe == cell.universe:\n                new_cell.fillid = None\n                new_cell.materialID = '1'"),
+ ('C09-7', 'C09', K + 'FileHandlers/Parser/ParseMCNPCell.py',
+  "        if kws['density'] is not None:\n            density = normalize_float(kws['density'])",
+  "        if kws['density'] is not None and material_id is None:\n            density = normalize_float(kws['density'])"),
 ]
 
 
